@@ -24,6 +24,7 @@ CFG = {
                 "set_mref": 0.8, "del_mref": 0.4, "eval": 0.8, "bad": 2.0, "rename_space": 0.0},
     "cross_names": 0.2,
     "enum_always": ("new_cells", "new_space", "set_ref", "rename_cells", "add_bases"),   # every edit that can bring two members of one name together
+    "clash_wide": True,     # name-clash histories: several sub spaces per base, re-deriving edits after every request
 }
 RULE = ("random histories (12-26 ops) of member creation/deletion/renaming and base changes over a small shared "
         "name alphabet (cells names, reference names and child-space names overlap on purpose through the malformed "
@@ -227,12 +228,22 @@ def run(ctx, out):
             break
     stats["clash_family_refused"] = refused
     out.coverage["evaluations"] += len(fam)
+    fam2 = S.refusal_family()
+    refused2 = S.run_family(out, stats, fam2, H, CFG, "refusal_family")
+    out.coverage["evaluations"] += len(fam2)
     out.coverage["input_distribution"] = dict(stats)
     out.coverage["rule"] += ("; plus the clash family: %d programs = (kind a sub space / sub-sub space uses a name for) x "
                              "(other kind arriving from above) x (add_bases of a definer / of a deriver / of two bases / "
                              "in mid-chain, creation in the top space / in an existing base, rename, new_space with both as "
                              "bases) x (model-level reference of the name or not); %d of them contain a refused edit"
                              % (len(fam), refused))
+    out.coverage["rule"] += ("; plus the refusal family (struct_props.refusal_family): %d programs = (a base with two or "
+                             "three sibling sub spaces / a chain / a diamond) x (which sub space uses the name, as cells / "
+                             "child space / reference) x (model-level reference of the name: none / created before / "
+                             "created AFTER the member) x (an earlier sub space overrides the name or not) x (other kind "
+                             "arriving in the base by creation or rename), each followed by edits of the base that only "
+                             "re-derive its sub spaces, the request again and more re-derivation; %d contain a refused edit"
+                             % (len(fam2), refused2))
 
 
 def replay(ctx, payload, out):
